@@ -32,7 +32,7 @@ DESC = {
 }
 rows = {}
 for line in LOG.read_text().splitlines() if LOG.exists() else []:
-    m = re.match(r"(/tmp/seed[23]?_(C\d\d)/([A-F])) demo without patch: exit (\d+) ; with patch: exit (\d+) ; suite with patch: (.*)", line)
+    m = re.match(r"(/tmp/seed[234]?_(C\d\d)/([A-H])) demo without patch: exit (\d+) ; with patch: exit (\d+) ; suite with patch: (.*)", line)
     if m:
         rows[f"{m.group(2)}-{m.group(3)}"] = (int(m.group(4)), int(m.group(5)), m.group(6), m.group(1))
 extra = json.loads(pathlib.Path("/root/work/seed_desc_extra.json").read_text()) if pathlib.Path("/root/work/seed_desc_extra.json").exists() else {}
@@ -41,7 +41,7 @@ def from_notes(src):
     """Description of a change from the agent's own notes: its heading and its 'needs to manifest' sentence."""
     txt = (src / "notes.md").read_text()
     head = next((l.strip("# ").strip() for l in txt.splitlines() if l.strip()), "")
-    head = re.sub(r"^(C\d\d\s*/\s*)?[Cc]hange [A-D]\s*[-:–—]*\s*", "", head)
+    head = re.sub(r"^(C\d\d\s*/\s*)?(Seeded )?[Cc]hange [A-H]\s*(\(property C\d\d\))?\s*[-:–—]*\s*", "", head)
     m = re.search(r"[Nn]eeds to manifest\W*(.{10,400}?)(?:\n\s*[-*]|\n\n|$)", txt, re.S)
     if not m:  # any sentence of the notes that speaks of manifesting / showing
         m = re.search(r"(?im)^[^\n]*\b(manifests?|shows? only|only shows?|needs)\b[^\n]*$", txt)
@@ -51,7 +51,11 @@ def from_notes(src):
     return head[:300], re.sub(r"\s+", " ", needs).strip()[:300]
 
 
+NOT_KEPT = {"C18-F": "judged not to break any property (DESIGN 9.1)"}
 for sid, (a, b, suite, srcdir) in sorted(rows.items()):
+    if sid in NOT_KEPT:
+        print("not kept", sid, NOT_KEPT[sid])
+        continue
     prop, ab = sid.split("-")
     src = pathlib.Path(srcdir)
     ok = a == 0 and b != 0 and "4087 passed" in suite and not re.search(r"(?<![a-z])\d+ failed", suite) and " error" not in suite
@@ -63,8 +67,9 @@ for sid, (a, b, suite, srcdir) in sorted(rows.items()):
     for f in ("patch.diff", "demo.py", "notes.md"):
         shutil.copy(src / f, dst / f)
     what, needs = DESC.get(sid, ("", ""))
-    if not what:
-        what, needs = from_notes(src)
+    if not what or not needs:
+        w2, n2 = from_notes(src)
+        what, needs = what or w2, needs or n2
     old = json.loads((dst / "meta.json").read_text()) if (dst / "meta.json").exists() else {}
     meta = {"id": sid, "property": prop, "breaks": what or old.get("breaks", ""), "needs_to_manifest": needs or old.get("needs_to_manifest", ""),
             "origin": "independent sub-agent given only the property text and a scratch worktree",
